@@ -349,6 +349,14 @@ pub(crate) fn parse_f64(v: &str) -> Option<f64> {
         ".inf" | ".Inf" | ".INF" | "+.inf" | "+.Inf" | "+.INF" => Some(f64::INFINITY),
         "-.inf" | "-.Inf" | "-.INF" => Some(f64::NEG_INFINITY),
         ".nan" | ".NaN" | ".NAN" => Some(f64::NAN),
-        _ => v.parse::<f64>().ok(),
+        // `f64::from_str` also accepts `inf`, `infinity` and `nan` (in any case, with a sign), which
+        // are not YAML floats: after the optional sign, a number starts with a digit or a dot.
+        _ if v
+            .trim_start_matches(['+', '-'])
+            .starts_with(|c: char| c.is_ascii_digit() || c == '.') =>
+        {
+            v.parse::<f64>().ok()
+        }
+        _ => None,
     }
 }
